@@ -1222,6 +1222,40 @@ func TestVerif(t *testing.T) {
 		o := check(t, &sc, nil, ms, res, env)
 		res.Case(sc.key(), nontrivial(&sc, o), nil)
 	}
+	// sweep: every error position in the source and in f, Close after 0..len results, for small
+	// parallelism / bufferSize combinations and two latency patterns (timed scenarios, 4 items)
+	for _, p := range []int{1, 2, 3} {
+		for _, b := range []int{0, 1, 3} {
+			for _, lm := range []int{0, 1} {
+				base := Scenario{Kind: "timed", Variant: "stream", P: p, B: b, N: 4, LatMode: lm, LatSeed: env.Seed, LatMax: 5, ConsTimeout: 2}
+				var list []Scenario
+				for pos := 1; pos <= 5; pos++ {
+					sc := base
+					sc.SrcErrAt = pos
+					list = append(list, sc)
+				}
+				for k := 0; k < 4; k++ {
+					sc := base
+					sc.FailF = []int{k}
+					list = append(list, sc)
+				}
+				for c := 1; c <= 5; c++ {
+					sc := base
+					sc.CloseAfter = c
+					list = append(list, sc)
+				}
+				it := base
+				it.Variant = "iter"
+				it.ConsTimeout = 0
+				list = append(list, it)
+				for i := range list {
+					res.Count("sweep")
+					o := check(t, &list[i], nil, ms, res, env)
+					res.Case(list[i].key(), nontrivial(&list[i], o), nil)
+				}
+			}
+		}
+	}
 	r := vlib.NewRand(env.Seed)
 	deadline := env.Deadline()
 	big := env.Thorough() || env.Deep
